@@ -15,7 +15,8 @@ for part in /tmp/seedall.part.*; do
       extra=""
       # seeds that belong to a neighbouring property's check as well
       case "$(basename "$d")" in C19-2-*) extra="C15";; C02-3-*) extra="C05";; esac
-      SEEDTEST_WORKTREE=/tmp/seedtest$i "$V/tools/seedtest.sh" "$d" $p $extra
+      W=/tmp/seedtest; [ "$i" = 2 ] && W=/tmp/seedtest2
+      SEEDTEST_WORKTREE=$W "$V/tools/seedtest.sh" "$d" $p $extra
     done < "$part" ) >> "$OUT" 2>&1 &
 done
 wait
